@@ -67,6 +67,24 @@ DISK2 = [["a.td", T([("inc", "b.td")])], ["b.td", T([("inc", "c.td"), ("raw", "c
          ["inc/c.td", T([("raw", "class Cdisk;")])], ["d.td", T([("raw", "class Ddisk;")])]]
 
 
+# ---- family 3: the included document exists ONLY as an editor buffer (new, never saved): n.td is absent on disk
+OPS3 = [("a.td", T([("inc", "n.td"), ("raw", "class A : N0;")])),
+        ("a.td", T([("raw", "class A3;"), ("inc_if", "n.td"), ("raw", "def a : N1;")])),
+        ("n.td", T([("raw", "class N0;")])),
+        ("n.td", T([("raw", "class N1;"), ("inc", "c.td")]))]
+DISK3 = [["a.td", T([("inc", "n.td"), ("raw", "class A : Ndisk;")])], ["c.td", C_DISK]]
+
+# ---- family 4: include spellings that are component-equal to the document's path (`./`, `//`, `sub/./`): PathBuf's
+#      Eq / Hash ignore them, so the editor buffer of w/b.td must be found through `include "./b.td"`.  These
+#      spellings are outside the Coq path algebra (segment lists): oracle layers only ("no_model").
+OPS4 = [("w/a.td", T([("inc", "./b.td"), ("inc", "sub//c.td"), ("raw", "class A : Bed0;")])),
+        ("w/a.td", T([("inc", "sub/./c.td"), ("inc_let", ".//b.td"), ("raw", "def a : Ced0;")])),
+        ("w/b.td", T([("raw", "class Bed0;")])),
+        ("w/sub/c.td", T([("raw", "class Ced0;"), ("inc", ".././b.td")]))]
+OPS4[3] = ("w/sub/c.td", T([("raw", "class Ced0;")]))          # ('..' is not generated)
+DISK4 = [["w/a.td", T([("inc", "./b.td"), ("raw", "class A : Bdisk;")])], ["w/b.td", B_DISK], ["w/sub/c.td", C_DISK]]
+
+
 def family(ops, disk, L, inc, tag):
     for n in range(1, L + 1):
         for seq in itertools.product(range(len(ops)), repeat=n):
@@ -102,6 +120,10 @@ def gen_cases(ctx):
     L = 4 if ctx.quick else 6
     cases = list(family(OPS1, DISK1, L, None, "root+included"))
     cases += list(family(OPS2, DISK2, 3 if ctx.quick else 5, "inc", "three levels + INCLUDE_DIR"))
+    cases += list(family(OPS3, DISK3, 3 if ctx.quick else 5, None, "included document only in the editor (absent on disk)"))
+    for c in family(OPS4, DISK4, 3 if ctx.quick else 5, None, "component-equal include spellings (./ // sub/./)"):
+        c["no_model"] = True
+        cases.append(c)
     nfam = len(cases)
     nrand = 150 if ctx.quick else 1500
     for _ in range(nrand):
@@ -110,7 +132,7 @@ def gen_cases(ctx):
 
 
 def pub(c):
-    return {k: c[k] for k in ("mode", "files", "include_dir", "history") if k in c}
+    return {k: c[k] for k in ("mode", "files", "include_dir", "history", "no_model") if k in c}
 
 
 def scratch():
@@ -274,7 +296,8 @@ def run(ctx):
         "sessions": sum(1 for r in res if not r["impl"].get("skipped")),
         "distinct_nontrivial": len(stats["nontrivial"]),
         "rule": "every session of 1..%d opens/changes over root a.td + included b.td x 2 editor texts each (disk texts differ; b.td may pull in c.td), "
-                "every session of 1..%d operations over a -> b -> inc/c.td (three levels, INCLUDE_DIR, a never-opened d.td) = %d sessions, "
+                "every session of 1..%d operations over a -> b -> inc/c.td (three levels, INCLUDE_DIR, a never-opened d.td), over an included document that exists "
+                "only as an editor buffer, and over component-equal include spellings (./b.td, sub//c.td, sub/./c.td; oracle layers only) = %d sessions, "
                 "plus %d random sessions (2..%d operations over 2..4 files, 2 editor texts + 1 disk text per file); every step is checked; "
                 "non-trivial = distinct session prefix after which an OPEN document whose editor text differs from the disk is in the workspace only through an include"
                 % (L, 3 if ctx.quick else 5, nfam, nrand, 5 if ctx.quick else 9),
